@@ -296,16 +296,36 @@ def rounded_stock_compare(ctx, rule):
                 if not (isinstance(t, ast.Compare) and len(t.ops) == 1 and isinstance(t.ops[0], (ast.Lt, ast.LtE, ast.Gt, ast.GtE))):
                     continue
                 sides = [t.left, t.comparators[0]]
-                volside = [x for x in sides if isinstance(x, ast.Attribute) and x.attr == 'volume']
-                if len(volside) != 1:
-                    continue
-                other = sides[1] if volside[0] is sides[0] else sides[0]
-                if isinstance(other, ast.Constant) or (isinstance(other, ast.Attribute) and other.attr.startswith('max_volume')):
-                    continue
                 ff = ff or ctx.flow(m.qualname)
                 if not ff.reachable(st):
                     continue
-                res = ff.resolve(other, ff.state_before(st))
+                # the same test written as a difference against zero: `round(needed - stored, p) > 0`
+                zero_side = [i for i, x in enumerate(sides) if isinstance(x, ast.Constant) and x.value == 0]
+                if len(zero_side) == 1:
+                    d = sides[1 - zero_side[0]]
+                    rounded_diff = isinstance(d, ast.Call) and isinstance(d.func, ast.Name) and d.func.id == 'round' and d.args
+                    inner = d.args[0] if rounded_diff else d
+                    if isinstance(inner, ast.BinOp) and isinstance(inner.op, ast.Sub):
+                        rs = [ff.resolve(x, ff.state_before(st)) for x in (inner.left, inner.right)]
+                        if any(isinstance(strip_refs(r), ast.Attribute) and strip_refs(r).attr == 'volume' for r in rs):
+                            n_cmp += 1
+                            ok = bool(rounded_diff) and is_rounded(ff.resolve(d, ff.state_before(st)))
+                            ctx.ob(rule, m, st.lineno, f"rounded-compare: `{unparse(d, 60)}` against zero", ok,
+                                   fact=f"the difference {'is' if ok else 'is not'} rounded to internal precision",
+                                   why='an unrounded difference from the rounded stored volume: a stock used up exactly is refused '
+                                       'under some storage units and accepted under others', key='stock compare on unrounded value')
+                            continue
+                # the stored volume itself or a local name bound to it (`available = source.volume`)
+                resolved = [ff.resolve(x, ff.state_before(st)) for x in sides]
+                volside = [i for i, (x, r) in enumerate(zip(sides, resolved))
+                           if (isinstance(x, ast.Attribute) and x.attr == 'volume') or
+                           (isinstance(x, ast.Name) and isinstance(strip_refs(r), ast.Attribute) and strip_refs(r).attr == 'volume')]
+                if len(volside) != 1:
+                    continue
+                other = sides[1 - volside[0]]
+                if isinstance(other, ast.Constant) or (isinstance(other, ast.Attribute) and other.attr.startswith('max_volume')):
+                    continue
+                res = resolved[1 - volside[0]]
                 n_cmp += 1
                 ok = is_rounded(res)
                 ctx.ob(rule, m, st.lineno, f"rounded-compare: `{unparse(other, 60)}` against the stored volume", ok,
